@@ -396,11 +396,13 @@ class Reader:
             return q, ('time', hms, frac)
         if is_digit(c) or (c == '-' and is_digit(at(t, p + 1))):
             return p_number(t, p)
-        if c == '[' and self.v3:
-            return self.p_list(t, p)
-        if c == '{' and self.v3:
-            return self.p_dict(t, p)
-        if c == '<' and self.v3 and at(t, p + 1) == '<':
+        if c == '[' or c == '{' or (c == '<' and at(t, p + 1) == '<'):
+            if not self.v3:
+                raise RefReject(p, '3.0-only construct in a 2.0 grid')
+            if c == '[':
+                return self.p_list(t, p)
+            if c == '{':
+                return self.p_dict(t, p)
             return self.p_nested(t, p)
         if is_alpha(c) or c == '_':
             # keyword, or TypeName(...)
@@ -459,7 +461,9 @@ class Reader:
                 return q, ('bool', True)
             if word == 'F':
                 return q, ('bool', False)
-            if word == 'NA' and self.v3:
+            if word == 'NA':
+                if not self.v3:
+                    raise RefReject(p, '3.0-only construct in a 2.0 grid')
                 return q, ('na',)
             if word == 'INF':
                 return q, ('num', 'INF', None)
@@ -548,7 +552,12 @@ class Reader:
         p = expect(t, p, 'ver:')
         p, ver = p_str(t, p)
         if nested and not ((ver == '3.0' and self.v3) or (ver == '2.0' and not self.v3)):
-            raise RefReject(p, 'uncertain: nested grid declaring another version than its document')
+            # a nested grid is read under the version it declares
+            sub = Reader(ver)
+            return sub.p_grid_body(t, p, ver, nested)
+        return self.p_grid_body(t, p, ver, nested)
+
+    def p_grid_body(self, t, p, ver, nested):
         p, meta = self.p_meta(t, p)
         p = self.p_nl(t, p)
         cols = []
@@ -598,7 +607,7 @@ class Reader:
                     raise RefReject(p, 'row has %d cells for %d columns' % (len(row), len(cols)))
             rows.append(row)
             if nested and looking_at(t, skip_blanks(t, p), '>>'):
-                break
+                raise RefReject(p, 'uncertain: last row of a nested grid without its newline')
             if at(t, p) == '':
                 break                                    # document without a final newline
             p = self.p_nl(t, p)
